@@ -412,7 +412,7 @@ def run(report, p):
             return None
         if k == "call":
             nm = t[1]
-            if any(nm.endswith(x) for x in SANITISERS):
+            if any(nm.endswith(x) for x in SANITISERS) or nm in ("ext:glob.escape", "ext:re.escape"):
                 return None
             if any(nm.endswith(x) for x in ABS_SOURCES):
                 return nm.split(":")[-1] + "()"
@@ -427,6 +427,7 @@ def run(report, p):
         return None
 
     DECOMP = {"split", "rsplit", "partition", "rpartition", "startswith", "endswith", "find", "rfind", "index", "rindex", "count", "removeprefix", "removesuffix"}
+    PATTERN_ARG = {"glob.glob": 0, "glob.iglob": 0, "re.compile": 0, "re.match": 0, "re.search": 0, "re.findall": 0, "re.fullmatch": 0, "re.split": 0, "re.sub": 0, "fnmatch.fnmatch": 1, "fnmatch.fnmatchcase": 1, "fnmatch.filter": 1}
     SUBJECT_ARG = {"re.match": 1, "re.search": 1, "re.findall": 1, "re.fullmatch": 1, "re.split": 1, "fnmatch.fnmatch": 0, "fnmatch.fnmatchcase": 0}
 
     def taint_of(e, f):
@@ -451,6 +452,11 @@ def run(report, p):
                 if n.func.attr in ("split", "rsplit") and isinstance(par, ast.Subscript) and par.value is n and isinstance(par.slice, ast.UnaryOp) and isinstance(par.slice.op, ast.USub) and isinstance(par.slice.operand, ast.Constant) and par.slice.operand.value == 1:
                     r5.instance(f, n, norm(n)[:70] + " [last component]")
                     continue
+            elif isinstance(n, ast.Call) and norm(n.func) in PATTERN_ARG and len(n.args) > PATTERN_ARG[norm(n.func)] and taint_of(n.args[PATTERN_ARG[norm(n.func)]], f) is not None:
+                # the absolute location is part of a *pattern*: its characters ([ ] * ? or regex operators) are interpreted
+                r5.instance(f, n, norm(n)[:80])
+                r5.check(False, f, n, f"{norm(n.func)} interprets its argument as a pattern, and the argument contains the absolute location of the root ({taint_of(n.args[PATTERN_ARG[norm(n.func)]], f)}) unescaped: under a folder whose name contains pattern characters (e.g. 'Card [A001]') nothing matches", construct=f"absolute path inside a pattern: {norm(n)[:60]}")
+                continue
             elif isinstance(n, ast.Call) and norm(n.func) in SUBJECT_ARG and len(n.args) > SUBJECT_ARG[norm(n.func)]:
                 subject, what = n.args[SUBJECT_ARG[norm(n.func)]], norm(n.func)
             elif isinstance(n, ast.Compare) and len(n.ops) == 1 and isinstance(n.ops[0], (ast.In, ast.NotIn)):
